@@ -358,6 +358,16 @@ var helpers16 = []helper16{
 	{"Merge3", func(q *pool16) any { return gogu.Merge(q.s1, q.keys, q.s2) }},
 	{"Flatten", func(q *pool16) any { r, _ := gogu.Flatten[int](q.nested); return r }},
 	{"Union", func(q *pool16) any { r, _ := gogu.Union[int](q.nested); return r }},
+	// the nesting given as a flat []T, as one []T leaf wrapped once, and with empty leaves around it (the first
+	// non-empty leaf is then the caller's own slice: a result that adopts it shares the caller's storage)
+	{"Flatten2", func(q *pool16) any { r, _ := gogu.Flatten[int](q.s1); return r }},
+	{"Union2", func(q *pool16) any { r, _ := gogu.Union[int](q.s1); return r }},
+	{"Flatten3", func(q *pool16) any { r, _ := gogu.Flatten[int]([]any{q.s1}); return r }},
+	{"Union3", func(q *pool16) any { r, _ := gogu.Union[int]([]any{q.s1}); return r }},
+	{"Flatten4", func(q *pool16) any { r, _ := gogu.Flatten[int]([]any{[]int{}, q.s1, []any{}, []int{}}); return r }},
+	{"Union4", func(q *pool16) any { r, _ := gogu.Union[int]([]any{[]int{}, q.s1, []any{}, []int{}}); return r }},
+	{"Flatten5", func(q *pool16) any { r, _ := gogu.Flatten[int]([]any{q.s1, q.s2}); return r }},
+	{"Union5", func(q *pool16) any { r, _ := gogu.Union[int]([]any{q.s1, q.s2}); return r }},
 	{"Intersection", func(q *pool16) any { return gogu.Intersection(q.s1, q.s2, q.keys) }},
 	{"IntersectionBy", func(q *pool16) any { return gogu.IntersectionBy(key16(q.f), q.s1, q.s2) }},
 	{"Without", func(q *pool16) any { return gogu.Without[int, int](q.s1, q.keys...) }},
